@@ -8,6 +8,7 @@ Oracle: deep snapshot (contents and identity structure) of all arguments and hos
 before == after, whatever the call returns or raises; a container-building builtin must not
 return one of its arguments itself.
 """
+import collections
 import itertools
 
 from ..core import runner, snapshot
@@ -59,6 +60,9 @@ def shapes():
         'idict': lambda: {1: 'one', 2: 'two', 'name': 'n', True: 'yes', None: 'no', 2.5: 'f'},
         'rows': lambda: [{1: D(1), 'a': [D(1)]}, {2: D(2)}],
         'short-rows': lambda: [[D(1), D(2), D(3)], [D(4)], [D(5), D(6)]],
+        # dict subclasses a host may bind: lookups by the non-mutating builtins must not provoke __missing__ / reorder
+        'ddict': lambda: collections.defaultdict(list, {'a': D(1), 'b': [D(2)]}),
+        'odict': lambda: collections.OrderedDict([('b', D(1)), ('a', D(2))]),
         'long-desc': lambda: [D(100 - i) for i in range(100)],
         'long-strs': lambda: ['s%03d' % (200 - i) for i in range(150)],
     }
@@ -217,6 +221,11 @@ def work(task):
         combos = [(a, b, c) for a in (names if mode == 'full' else ['nums', 'dict', 'ndict', 'nested', 'str', 'strs', 'tuples'])
                   for b in pool + lam for c in pool + ['λid']]
     for combo in combos:
+        if fname == '__getitem__' and combo[0] == 'ddict':
+            # `d[k]` on a mapping with __missing__ runs the host object's own hook (that is what a defaultdict is for); whether
+            # that is the builtin "changing its argument" is not something the statement fixes - not enumerated (see DESIGN.md 7)
+            res.count('skipped_host_missing_hook')
+            continue
         check_case(res, fname, combo, shp, None)
         res.count('cases')
     if arity == 2 and fname == 'sorted':
